@@ -61,7 +61,7 @@ def handleC12 (ts : List String) : Option (List String) :=
     match parseValsC12 r with
     | some [sv, .arr xs] =>
       some (showR showVals (sliceOp sv xs) ++ ["|"] ++ showSpec ((Spec.Proj.slice sv xs).map .arr)
-        ++ ["|"] ++ (Spec.Proj.sliceReasons sv xs).eraseDups)
+        ++ ["|"] ++ (Spec.Proj.sliceReasons sv).eraseDups)
     | _ => some ["?parse"]
   | "c12sub" :: r =>
     match parseValsC12 r with
